@@ -274,6 +274,8 @@ def gen_c14(rng, tier):
             sh.append({"op": "parse", "text": text, "expected": exp})
         for _ in range(nrepo):
             sh.append({"op": "gitrepo", "history": rand_history(rng, adversarial=rng.random() < 0.2, n=rng.choice([1, 3, 6, 8]), real=True)})
+            if rng.random() < 0.3:
+                sh[-1]["cli"] = True     # parsed by the real `coca git` run in that repository (coca_reporter/commits.json)
         # a few raw malformed texts (no expectation: only model == implementation and no crash)
         for _ in range(5):
             sh.append({"op": "parse", "text": "\n".join(rand_line(rng) for _ in range(rng.choice([1, 3, 6])))})
